@@ -1,550 +1,66 @@
-import MgpuModel.Util
+import MgpuModel.C13Core
+import MgpuModel.C13Elf
+import MgpuModel.C13Drv
+import MgpuModel.C04
 /-!
-# C13 — HSACO kernel loading (amd/insts/hsaco.go), over an ELF *view*
+# C13 — HSACO kernel loading: entry point of the executable model
 
-The view is what `debug/elf` hands to the loader: the section list (name, address,
-data or "Data() failed") and the symbol table (name, value, size, section index), or
-"no symbol table".  ELF parsing itself is trusted.  Everything below transcribes
-`loadKernelCodeObjectFromELF` and its helpers branch by branch; `log.Fatal` paths
-are `Outcome.fatal`, slice-bounds panics are `Outcome.fault`.
+* `C13Core.lean` — the loader on an ELF view (`loadKernel` and its helpers, accessor methods,
+  symbol selection, sessions); case lines `load`, `ent`, `hdr`, `kd`, `acc`, `kdacc`, `sel`.
+* `C13Elf.lean` — file bytes → view, as `debug/elf` does it for ELF64 little-endian files
+  (`LoadKernelCodeObjectFromBytes` / `FromFS`); case lines `elf`, `loadb`, `foff`.
+* `C13Drv.lean` — the driver's use of the loaded object (allocation, upload, packet, cache);
+  case line `drv`.
+* here: the loaded instruction bytes handed to the decoder of property C04 (`dec`).
 -/
 namespace C13
 
-abbrev Bytes := List UInt8
-
-/-- 2^64: `uint64` arithmetic in the loader wraps -/
-def U64 : Nat := 18446744073709551616
-
-structure Section where
-  name : String
-  addr : Nat
-  /-- `none`: `Section.Data()` returned nil (SHT_NOBITS / read error) -/
-  data : Option Bytes
-  deriving Repr
-
-structure Symbol where
-  name : String
-  value : Nat
-  size : Nat
-  shndx : Nat
-  deriving DecidableEq, Repr
-
-structure View where
-  sections : List Section
-  /-- `none`: `File.Symbols()` failed (no SHT_SYMTAB section) -/
-  symbols : Option (List Symbol)
-
-/-- `KernelCodeObjectMeta` -/
-structure Meta where
-  rsrc1 : Nat := 0
-  rsrc2 : Nat := 0
-  rsrc3 : Nat := 0
-  kernarg : Nat := 0
-  lds : Nat := 0
-  priv : Nat := 0
-  entry : Nat := 0
-  enPrivSegBuf : Bool := false
-  enDispatchPtr : Bool := false
-  enQueuePtr : Bool := false
-  enKernargPtr : Bool := false
-  enDispatchID : Bool := false
-  enFlatScratch : Bool := false
-  enPrivSegSize : Bool := false
-  enGridX : Bool := false
-  enGridY : Bool := false
-  enGridZ : Bool := false
-  cvMajor : Nat := 0
-  cvMinor : Nat := 0
-  machineKind : Nat := 0
-  mvMajor : Nat := 0
-  mvMinor : Nat := 0
-  mvStepping : Nat := 0
-  wfSgpr : Nat := 0
-  wiVgpr : Nat := 0
-  deriving DecidableEq, Repr
-
-/-! ## little-endian reads (`encoding/binary.LittleEndian`) -/
-
-def byteAt (d : Bytes) (i : Nat) : Nat := (d.getD i 0).toNat
-def u16 (d : Bytes) (o : Nat) : Nat := byteAt d o + 256 * byteAt d (o + 1)
-def u32 (d : Bytes) (o : Nat) : Nat :=
-  byteAt d o + 256 * byteAt d (o + 1) + 65536 * byteAt d (o + 2) + 16777216 * byteAt d (o + 3)
-def u64 (d : Bytes) (o : Nat) : Nat := u32 d o + 4294967296 * u32 d (o + 4)
-
-def testBit (n i : Nat) : Bool := (n / 2 ^ i) % 2 == 1
-
-/-- `extractBits(number, lo, hi)` of disassembler.go -/
-def extractBits (n lo hi : Nat) : Nat := (n / 2 ^ lo) % 2 ^ (hi - lo + 1)
-
-/-! ## V2/V3 header -/
-
-/-- `isV2V3Header` -/
-def isV2V3Header (d : Bytes) : Bool :=
-  if d.length < 256 then false
-  else if u32 d 0 != 1 || u32 d 4 > 2 || u16 d 8 != 1 then false
-  else if u16 d 10 < 7 || u16 d 10 > 9 then false
-  else if u64 d 16 != 256 then false
-  else true
-
-/-- `parseV2V3Header` (the reads; see `parseV2V3Header?` for the range condition) -/
-def parseV2V3Header (d : Bytes) : Meta :=
-  let flags := u32 d 56
-  { cvMajor := u32 d 0
-    cvMinor := u32 d 4
-    machineKind := u16 d 8
-    mvMajor := u16 d 10
-    mvMinor := u16 d 12
-    mvStepping := u16 d 14
-    entry := u64 d 16
-    rsrc1 := u32 d 48
-    rsrc2 := u32 d 52
-    enPrivSegBuf := testBit flags 0
-    enDispatchPtr := testBit flags 1
-    enQueuePtr := testBit flags 2
-    enKernargPtr := testBit flags 3
-    enDispatchID := testBit flags 4
-    enFlatScratch := testBit flags 5
-    enPrivSegSize := testBit flags 6
-    enGridX := testBit flags 7
-    enGridY := testBit flags 8
-    enGridZ := testBit flags 9
-    priv := u32 d 60
-    lds := u32 d 64
-    kernarg := u64 d 72
-    wfSgpr := u16 d 84
-    wiVgpr := u16 d 86 }
-
-/-- the function reads bytes `[0, 88)`; Go panics (slice bounds) on anything shorter -/
-def parseV2V3Header? (d : Bytes) : Option Meta :=
-  if d.length < 88 then none else some (parseV2V3Header d)
-
-/-! ## V5 kernel descriptor -/
-
-/-- the rewriting of `compute_pgm_rsrc2` in `parseV5KernelDescriptor` -/
-def fixRsrc2 (r : BitVec 32) (kernargPtr : Bool) : BitVec 32 :=
-  let r := r &&& ~~~1#32
-  let r := if kernargPtr then (r &&& ~~~(0x1F#32 <<< 1)) ||| (2#32 <<< 1) else r
-  let r := r ||| (1#32 <<< 7)
-  let r := r ||| (1#32 <<< 8)
-  if ((r >>> 11) &&& 3#32) == 0#32 then (r &&& ~~~(3#32 <<< 11)) ||| (1#32 <<< 11) else r
-
-/-- `parseV5KernelDescriptor` (repaired): the rsrc words at the offsets of the AMDGPU ABI
-(`amdhsa::kernel_descriptor_t`): compute_pgm_rsrc3 @44, rsrc1 @48, rsrc2 @52 -/
-def parseV5KernelDescriptor (d : Bytes) : Meta :=
-  let karg := u32 d 8
-  let r1 := u32 d 48
-  { lds := u32 d 0
-    priv := u32 d 4
-    kernarg := karg
-    entry := u64 d 16
-    rsrc3 := u32 d 44
-    rsrc1 := r1
-    rsrc2 := (fixRsrc2 (BitVec.ofNat 32 (u32 d 52)) (decide (karg > 0))).toNat
-    wiVgpr := ((extractBits r1 0 5 + 1) * 4) % 65536
-    wfSgpr := ((extractBits r1 6 9 + 1) * 8) % 65536
-    enKernargPtr := decide (karg > 0) }
-
-/-- the function reads bytes `[0, 56)` -/
-def parseV5KernelDescriptor? (d : Bytes) : Option Meta :=
-  if d.length < 56 then none else some (parseV5KernelDescriptor d)
-
-/-- `parseV5KernelDescriptor` before the repair: every rsrc word one slot early (40/44/48);
-kept for `C13_full_before_fix_refuted` -/
-def parseV5KernelDescriptorOld (d : Bytes) : Meta :=
-  let karg := u32 d 8
-  let r1 := u32 d 44
-  { lds := u32 d 0
-    priv := u32 d 4
-    kernarg := karg
-    entry := u64 d 16
-    rsrc3 := u32 d 40
-    rsrc1 := r1
-    rsrc2 := (fixRsrc2 (BitVec.ofNat 32 (u32 d 48)) (decide (karg > 0))).toNat
-    wiVgpr := ((extractBits r1 0 5 + 1) * 4) % 65536
-    wfSgpr := ((extractBits r1 6 9 + 1) * 8) % 65536
-    enKernargPtr := decide (karg > 0) }
-
-/-! ## register-count overrides from `<k>.numbered_sgpr` / `<k>.num_vgpr` (uint16 arithmetic) -/
-
-def sgprFromSym (v : Nat) : Nat := (((v % 65536 + 2) % 65536 + 7) % 65536) / 8 * 8
-def vgprFromSym (v : Nat) : Nat := ((v % 65536 + 3) % 65536) / 4 * 4
-
-def overrideStep (k : String) (m : Meta) (s : Symbol) : Meta :=
-  if s.name = k ++ ".numbered_sgpr" then
-    (if sgprFromSym s.value > m.wfSgpr then { m with wfSgpr := sgprFromSym s.value } else m)
-  else if s.name = k ++ ".num_vgpr" then
-    (if vgprFromSym s.value > m.wiVgpr then { m with wiVgpr := vgprFromSym s.value } else m)
-  else m
-
-/-- `overrideRegisterCountsFromSymbols` -/
-def overrideRegs (k : String) (m : Meta) (syms : List Symbol) : Meta :=
-  syms.foldl (overrideStep k) m
-
-/-! ## slices -/
-
-/-- `a - b` in `uint64` arithmetic, for `a, b < 2^64` (written without `a + 2^64`, which
-Lean's unifier would unfold as 2^64 successors) -/
-def wrapSub (a b : Nat) : Nat := if b ≤ a then a - b else U64 - (b - a)
-
-/-- Go `data[off : off+size]` with uint64 wrap-around of `off+size`; `none` = panic.
-(cap = len for the buffers `debug/elf` returns.) -/
-def sliceU64 (d : Bytes) (off size : Nat) : Option Bytes :=
-  let hi := (off + size) % U64
-  if off ≤ hi ∧ hi ≤ d.length then some ((d.drop off).take (hi - off)) else none
-
-/-! ## results -/
-
-structure Loaded where
-  data : Bytes
-  md : Meta
-  version : Nat
-  sym : Option Symbol
-  deriving DecidableEq, Repr
-
-inductive Outcome where
-  | ok (r : Loaded)
-  /-- `log.Fatal`: the process ends -/
-  | fatal (kind : String)
-  /-- slice-bounds panic -/
-  | fault
-  deriving DecidableEq, Repr
-
-/-- `newKernelCodeObjectFromEntireTextSection` -/
-def fromEntireText (d : Bytes) : Outcome :=
-  if d.length ≥ 256 && isV2V3Header d then
-    match parseV2V3Header? d with
-    | none => .fault
-    | some m => .ok { data := d.drop 256, md := { m with entry := 0 }, version := 3, sym := none }
-  else .ok { data := d, md := {}, version := 5, sym := none }
-
-def withSym (o : Outcome) (s : Symbol) : Outcome :=
-  match o with
-  | .ok r => .ok { r with sym := some s }
-  | o => o
-
-inductive KdLookup where
-  | none
-  | fault
-  | found (m : Meta)
-  deriving DecidableEq, Repr
-
-def findSection (secs : List Section) (n : String) : Option Section := secs.find? (·.name == n)
-
-/-- `findV5KernelDescriptor` (repaired): the descriptor symbol is used only when it lies inside
-`.rodata`, compared without wrap-around (`sym.Value >= Addr`, `kdOffset <= len`, `len-kdOffset >= 64`) -/
-def findV5 (secs : List Section) (k : String) (syms : List Symbol) : KdLookup :=
-  match findSection secs ".rodata" with
-  | none => .none
-  | some ro =>
-    match ro.data with
-    | none => .none
-    | some rod =>
-      match syms.find? (fun s => s.name == k ++ ".kd" && s.size == 64) with
-      | none => .none
-      | some s =>
-        match secs[s.shndx]? with
-        | none => .none
-        | some sec =>
-          if sec.name == ".rodata" then
-            if ro.addr ≤ s.value then
-              let off := s.value - ro.addr
-              if off ≤ rod.length ∧ rod.length - off ≥ 64 then
-                match parseV5KernelDescriptor? ((rod.drop off).take 64) with
-                | some m => .found m
-                | none => .fault
-              else .none
-            else .none
-          else .none
-
-/-- `findV5KernelDescriptor` before the repair: `kdOffset := sym.Value - rodataSection.Addr` and
-`kdOffset+64 <= len` in wrapping uint64 arithmetic (kept for `findV5_before_fix_refuted`) -/
-def findV5Old (secs : List Section) (k : String) (syms : List Symbol) : KdLookup :=
-  match findSection secs ".rodata" with
-  | none => .none
-  | some ro =>
-    match ro.data with
-    | none => .none
-    | some rod =>
-      match syms.find? (fun s => s.name == k ++ ".kd" && s.size == 64) with
-      | none => .none
-      | some s =>
-        match secs[s.shndx]? with
-        | none => .none
-        | some sec =>
-          if sec.name == ".rodata" then
-            let off := wrapSub s.value ro.addr
-            let hi := (off + 64) % U64
-            if hi ≤ rod.length then
-              if off ≤ hi then
-                match parseV5KernelDescriptor? ((rod.drop off).take 64) with
-                | some m => .found m
-                | none => .fault
-              else .fault
-            else .none
-          else .none
-
-/-- kernel symbols: defined, section index in range, section named `.text`, size > 0 -/
-def isKernelSym (secs : List Section) (s : Symbol) : Bool :=
-  s.shndx != 0 &&
-  (match secs[s.shndx]? with
-   | none => false
-   | some sec => sec.name == ".text" && s.size > 0)
-
-/-- the part of the loader after the kernel name is known -/
-def loadNamed (secs : List Section) (text : Section) (td : Bytes) (syms : List Symbol) (k : String) : Outcome :=
-  match (syms.filter (isKernelSym secs)).find? (·.name == k) with
-  | none => .fatal "notfound"
-  | some s =>
-    let off := wrapSub s.value text.addr
-    match sliceU64 td off s.size with
-    | none => .fault
-    | some kdata =>
-      match findV5 secs k syms with
-      | .fault => .fault
-      | .found m => .ok { data := kdata, md := overrideRegs k m syms, version := 5, sym := some s }
-      | .none => withSym (fromEntireText kdata) s
-
-/-- `loadKernelCodeObjectFromELF` -/
-def loadKernel (v : View) (name : String) : Outcome :=
-  match findSection v.sections ".text" with
-  | none => .fatal "notext"
-  | some text =>
-    match text.data with
-    | none => .fatal "textdata"
-    | some td =>
-      match v.symbols with
-      | none => fromEntireText td
-      | some syms =>
-        if name = "" then
-          match syms.filter (isKernelSym v.sections) with
-          | [] => fromEntireText td
-          | [s] => loadNamed v.sections text td syms s.name
-          | _ => .fatal "multiple"
-        else loadNamed v.sections text td syms name
-
-/-! ## symbol selection as a total function with an explicit error enum
-
-`loadNamed` above answers with `Outcome`; the part of it that picks the kernel symbol and
-cuts its bytes out of `.text` is restated here with the Go run-time error it can raise
-(`loadNamed_via_select` in `MgpuProofs/C13Select.lean` shows it is the same computation). -/
-
-/-- why the selection yields no bytes -/
-inductive SelErr where
-  /-- no symbol passes the kernel filter and carries the name: `log.Fatalf("kernel '%s' not found …")` -/
-  | notFound
-  /-- `textSectionData[offset : offset+size]`: "slice bounds out of range [:hi] with capacity cap" -/
-  | hiPastCap
-  /-- same expression: "slice bounds out of range [lo:hi]" (lo > hi after uint64 wrap-around) -/
-  | loPastHi
-  deriving DecidableEq, Repr
-
-inductive Sel where
-  | ok (s : Symbol) (bytes : Bytes)
-  | err (e : SelErr)
-  deriving DecidableEq, Repr
-
-/-- the first symbol, in table order, that passes the kernel filter and is named `k` -/
-def firstKernelSym (secs : List Section) (syms : List Symbol) (k : String) : Option Symbol :=
-  (syms.filter (isKernelSym secs)).find? (·.name == k)
-
-/-- the `for _, symbol := range kernelSymbols` loop up to `kernelData := …` (Go checks
-`hi ≤ cap` before `lo ≤ hi`) -/
-def selectKernel (secs : List Section) (textAddr : Nat) (td : Bytes) (syms : List Symbol) (k : String) : Sel :=
-  match firstKernelSym secs syms k with
-  | none => .err .notFound
-  | some s =>
-    let off := wrapSub s.value textAddr
-    let hi := (off + s.size) % U64
-    if hi > td.length then .err .hiPastCap
-    else if off > hi then .err .loPastHi
-    else .ok s ((td.drop off).take (hi - off))
-
-/-- the symbol's range lies inside the section's loaded bytes (plain arithmetic, no wrap) -/
-def symInside (textAddr tdLen : Nat) (s : Symbol) : Bool :=
-  decide (textAddr ≤ s.value ∧ s.value + s.size ≤ textAddr + tdLen)
-
-/-- decidable well-formedness for a lookup of `k`: the first kernel symbol named `k`, if
-there is one, lies inside `.text` -/
-def selWF (secs : List Section) (textAddr : Nat) (td : Bytes) (syms : List Symbol) (k : String) : Bool :=
-  match firstKernelSym secs syms k with
-  | none => true
-  | some s => symInside textAddr td.length s
-
-/-! ## sessions: the loader keeps nothing between calls -/
-
-structure Req where
-  view : View
-  name : String
-
-/-- a run of the loader: one answer per request, in order.  There is no state to thread:
-the loader functions of hsaco.go touch no package-level variable (regenerated audit
-`Gen.Hsaco.loaderGlobals`, theorem `loader_has_no_state`). -/
-def session (reqs : List Req) : List Outcome := reqs.map (fun r => loadKernel r.view r.name)
-
-/-! ## the accessor methods of `KernelCodeObjectMeta` (hsaco.go, bottom) -/
-
-def workItemVgprCount (m : Meta) : Nat := extractBits m.rsrc1 0 5
-def wavefrontSgprCount (m : Meta) : Nat := extractBits m.rsrc1 6 9
-def priority (m : Meta) : Nat := extractBits m.rsrc1 10 11
-def enPrivSegWaveByteOffset (m : Meta) : Bool := extractBits m.rsrc2 0 0 != 0
-def userSgprCount (m : Meta) : Nat := extractBits m.rsrc2 1 5
-def enWorkGroupIDX (m : Meta) : Bool := extractBits m.rsrc2 7 7 != 0
-def enWorkGroupIDY (m : Meta) : Bool := extractBits m.rsrc2 8 8 != 0
-def enWorkGroupIDZ (m : Meta) : Bool := extractBits m.rsrc2 9 9 != 0
-def enWorkGroupInfo (m : Meta) : Bool := extractBits m.rsrc2 10 10 != 0
-def enVgprWorkItemID (m : Meta) : Nat := extractBits m.rsrc2 11 12
-def enExceptionAddressWatch (m : Meta) : Bool := extractBits m.rsrc2 13 13 != 0
-def enExceptionMemoryViolation (m : Meta) : Bool := extractBits m.rsrc2 14 14 != 0
-
-/-! ## spec-side layout writers (used by the round-trip theorems and by nothing else) -/
-
-def le16 (x : Nat) : Bytes := [UInt8.ofNat (x % 256), UInt8.ofNat (x / 256 % 256)]
-def le32 (x : Nat) : Bytes :=
-  [UInt8.ofNat (x % 256), UInt8.ofNat (x / 256 % 256), UInt8.ofNat (x / 65536 % 256), UInt8.ofNat (x / 16777216 % 256)]
-def le64 (x : Nat) : Bytes := le32 (x % 4294967296) ++ le32 (x / 4294967296 % 4294967296)
-
-def flagsOf (m : Meta) : Nat :=
-  m.enPrivSegBuf.toNat + 2 * m.enDispatchPtr.toNat + 4 * m.enQueuePtr.toNat + 8 * m.enKernargPtr.toNat +
-  16 * m.enDispatchID.toNat + 32 * m.enFlatScratch.toNat + 64 * m.enPrivSegSize.toNat + 128 * m.enGridX.toNat +
-  256 * m.enGridY.toNat + 512 * m.enGridZ.toNat
-
-/-- `amd_kernel_code_t` (256 bytes): the fields the loader keeps; `skip*` are the
-fields it does not read (prefetch, scratch, upper flag bits, GDS, barrier count, tail). -/
-def renderHeader (m : Meta) (skip24 : Nat) (skip32 : Nat) (skip40 : Nat) (flagsHi : Nat) (gds : Nat) (barrier : Nat) (tail : Bytes) : Bytes :=
-  le32 m.cvMajor ++ le32 m.cvMinor ++ le16 m.machineKind ++ le16 m.mvMajor ++ le16 m.mvMinor ++ le16 m.mvStepping ++
-  le64 m.entry ++ le64 skip24 ++ le64 skip32 ++ le64 skip40 ++ le32 m.rsrc1 ++ le32 m.rsrc2 ++
-  le32 (flagsOf m + 1024 * flagsHi) ++ le32 m.priv ++ le32 m.lds ++ le32 gds ++ le64 m.kernarg ++ le32 barrier ++
-  le16 m.wfSgpr ++ le16 m.wiVgpr ++ tail
-
-/-- The kernel descriptor as the AMDGPU ABI lays it out (llvm `amdhsa::kernel_descriptor_t`):
-rsrc3 @44, rsrc1 @48, rsrc2 @52, kernel_code_properties @56. -/
-structure KdFields where
-  lds : Nat
-  priv : Nat
-  kernarg : Nat
-  reserved12 : Nat
-  entry : Nat
-  reserved24 : Nat
-  reserved32 : Nat
-  reserved40 : Nat
-  rsrc3 : Nat
-  rsrc1 : Nat
-  rsrc2 : Nat
-  props : Nat
-  preload : Nat
-  reserved60 : Nat
-
-def renderKd (f : KdFields) : Bytes :=
-  le32 f.lds ++ le32 f.priv ++ le32 f.kernarg ++ le32 f.reserved12 ++ le64 f.entry ++ le64 f.reserved24 ++
-  le64 f.reserved32 ++ le32 f.reserved40 ++ le32 f.rsrc3 ++ le32 f.rsrc1 ++ le32 f.rsrc2 ++ le16 f.props ++
-  le16 f.preload ++ le32 f.reserved60
-
-/-! ## line protocol -/
-
-def hexVal (c : UInt8) : Nat :=
-  if c ≥ 48 && c ≤ 57 then (c - 48).toNat
-  else if c ≥ 97 && c ≤ 102 then (c - 87).toNat
-  else if c ≥ 65 && c ≤ 70 then (c - 55).toNat
-  else 0
-
-def hexToBytes (s : String) : Bytes :=
-  let a := s.toUTF8
-  let rec go (i : Nat) (acc : Bytes) : Bytes :=
-    match i with
-    | 0 => acc
-    | i + 1 => go i (UInt8.ofNat (hexVal a[2 * i]! * 16 + hexVal a[2 * i + 1]!) :: acc)
-  go (a.size / 2) []
-
-def fnv64 (bs : Bytes) : UInt64 :=
-  bs.foldl (fun h b => (h ^^^ b.toUInt64) * 1099511628211) 14695981039346656037
-
-def b01 (b : Bool) : String := if b then "1" else "0"
-
-def metaStr (m : Meta) : String :=
-  "r1=" ++ Util.toHexPad 8 m.rsrc1 ++ " r2=" ++ Util.toHexPad 8 m.rsrc2 ++ " r3=" ++ Util.toHexPad 8 m.rsrc3 ++
-  " karg=" ++ toString m.kernarg ++ " lds=" ++ toString m.lds ++ " priv=" ++ toString m.priv ++
-  " entry=" ++ toString m.entry ++ " en=" ++
-  b01 m.enPrivSegBuf ++ b01 m.enDispatchPtr ++ b01 m.enQueuePtr ++ b01 m.enKernargPtr ++ b01 m.enDispatchID ++
-  b01 m.enFlatScratch ++ b01 m.enPrivSegSize ++ b01 m.enGridX ++ b01 m.enGridY ++ b01 m.enGridZ ++
-  " cv=" ++ toString m.cvMajor ++ "." ++ toString m.cvMinor ++ " mk=" ++ toString m.machineKind ++
-  " mv=" ++ toString m.mvMajor ++ "." ++ toString m.mvMinor ++ "." ++ toString m.mvStepping ++
-  " sgpr=" ++ toString m.wfSgpr ++ " vgpr=" ++ toString m.wiVgpr
-
-def outcomeStr : Outcome → String
-  | .fault => "fault:bounds"
-  | .fatal k => "fatal:" ++ k
-  | .ok r =>
-    let sym := match r.sym with
-      | none => "nil"
-      | some s => "n:" ++ s.name ++ "," ++ Util.toHex s.value ++ "," ++ Util.toHex s.size ++ "," ++ toString s.shndx
-    "ok v=" ++ toString r.version ++ " sym=" ++ sym ++ " data=" ++ toString r.data.length ++ ":" ++
-      Util.toHexPad 16 (fnv64 r.data).toNat ++ " " ++ metaStr r.md
-
-/-- answer of the `c13 acc` / `c13 kdacc` case lines: every accessor, in source order -/
-def accStr (m : Meta) : String :=
-  "vgpr=" ++ toString (workItemVgprCount m) ++ " sgpr=" ++ toString (wavefrontSgprCount m) ++
-  " prio=" ++ toString (priority m) ++ " wave=" ++ b01 (enPrivSegWaveByteOffset m) ++
-  " user=" ++ toString (userSgprCount m) ++ " wg=" ++ b01 (enWorkGroupIDX m) ++ b01 (enWorkGroupIDY m) ++
-  b01 (enWorkGroupIDZ m) ++ b01 (enWorkGroupInfo m) ++ " wi=" ++ toString (enVgprWorkItemID m) ++
-  " exc=" ++ b01 (enExceptionAddressWatch m) ++ b01 (enExceptionMemoryViolation m)
-
-def selStr : Sel → String
-  | .err .notFound => "err:notfound"
-  | .err .hiPastCap => "err:hi-past-cap"
-  | .err .loPastHi => "err:lo-past-hi"
-  | .ok s bytes =>
-    "ok sym=n:" ++ s.name ++ "," ++ Util.toHex s.value ++ "," ++ Util.toHex s.size ++ "," ++ toString s.shndx ++
-      " data=" ++ (if bytes.isEmpty then "e" else Util.bytesHex (bytes.map (·.toNat)))
-
-/-- `c13 sel`: the selection step of a load by (non-empty) name on a view with `.text` data and symbols -/
-def selOfView (v : View) (k : String) : String :=
-  match findSection v.sections ".text" with
-  | none => "nosel"
-  | some text =>
-    match text.data, v.symbols with
-    | some td, some syms => selStr (selectKernel v.sections text.addr td syms k)
-    | _, _ => "nosel"
-
-def unName (t : String) : String := (t.drop 2).toString
-
-def parseData (t : String) : Option Bytes :=
-  if t = "!" then none else if t = "-" || t = "e" then some [] else some (hexToBytes t)
-
-def parseView (parts : List String) (hasSyms : Bool) : View :=
-  let (secs, syms) := parts.foldl (fun (acc : List Section × List Symbol) p =>
-    match Util.words p with
-    | ["S", n, a, d] => ({ name := unName n, addr := (Util.hexNat? a).getD 0, data := parseData d } :: acc.1, acc.2)
-    | ["Y", n, v, sz, sh] =>
-      (acc.1, { name := unName n, value := (Util.hexNat? v).getD 0, size := (Util.hexNat? sz).getD 0, shndx := (sh.toNat?).getD 0 } :: acc.2)
-    | _ => acc) ([], [])
-  { sections := secs.reverse, symbols := if hasSyms then some syms.reverse else none }
+/-- Sequential decode of the loaded bytes with the decoder model of C04 (`C04.decode`, on the
+8-byte window the real `Decode` looks at): number of instructions, where it stopped and why, and a
+running hash of (format, opcode, size) so that the two decoders are compared instruction by
+instruction. -/
+def decWalk (cdna3 : Bool) : Nat → List Nat → Nat → Nat → Nat → String
+  | 0, _, pc, n, h => s!"insts={n} end={pc} stop=fuel h={h}"
+  | fuel + 1, rest, pc, n, h =>
+    match rest with
+    | [] => s!"insts={n} end={pc} stop=end h={h}"
+    | _ =>
+      match C04.decode cdna3 (rest.take 8) with
+      | .ok i =>
+        if i.size = 0 then s!"insts={n} end={pc} stop=size0 h={h}"
+        else decWalk cdna3 fuel (rest.drop i.size) (pc + i.size) (n + 1)
+          ((h * 31 + i.ft * 100000 + i.opcode * 10 + i.size) % 288230376151711717)
+      | .err => s!"insts={n} end={pc} stop=err h={h}"
+      | .notImpl => s!"insts={n} end={pc} stop=notimpl h={h}"
+
+/-- `c13 dec <0|1> n:<kernel> syms=… ; view`: load by name with the loader model, then walk -/
+def decOfView (cdna3 : Bool) (v : View) (k : String) : String :=
+  match loadKernel v k with
+  | .ok r => "v=" ++ toString r.version ++ " len=" ++ toString r.data.length ++ " " ++
+      decWalk cdna3 (r.data.length + 1) (r.data.map (·.toNat)) 0 0 0
+  | o => outcomeStr o
+
+/-- the 120 instruction bytes of `ReLUForward` of amd/benchmarks/dnn/layer_benchmarks/relu/kernels_gfx942.hsaco
+(a literal; the case line `c13 embedded relu` compares it with what the real loader returns for that file) -/
+def reluForwardBytes : List Nat := [
+  192, 0, 2, 192, 36, 0, 0, 0, 0, 1, 2, 192, 0, 0, 0, 0, 127, 192, 140, 191,
+  3, 255, 3, 134, 255, 255, 0, 0, 2, 3, 2, 146, 2, 0, 0, 104, 4, 0, 136, 125,
+  106, 32, 130, 190, 17, 0, 136, 191, 0, 1, 10, 192, 8, 0, 0, 0, 159, 0, 2, 34,
+  0, 0, 143, 210, 130, 0, 2, 0, 127, 192, 140, 191, 2, 0, 8, 210, 4, 0, 1, 4,
+  0, 128, 80, 220, 2, 0, 127, 2, 0, 0, 8, 210, 6, 0, 1, 4, 112, 15, 140, 191,
+  2, 5, 4, 22, 128, 4, 4, 22, 0, 128, 112, 220, 0, 2, 127, 0, 0, 0, 129, 191]
 
 def handle (line : String) : String :=
   match line.splitOn " ; " with
   | [] => "bad-op"
   | hd :: rest =>
     match Util.words hd with
-    | ["c13", "load", n, sy] => outcomeStr (loadKernel (parseView rest (sy == "syms=1")) (unName n))
-    | ["c13", "ent", h] =>
-      let d := (parseData h).getD []
-      "is=" ++ b01 (isV2V3Header d) ++ " " ++ outcomeStr (fromEntireText d)
-    | ["c13", "hdr", h] =>
-      match parseV2V3Header? ((parseData h).getD []) with
-      | none => "fault:bounds"
-      | some m => metaStr m
-    | ["c13", "kd", h] =>
-      match parseV5KernelDescriptor? ((parseData h).getD []) with
-      | none => "fault:bounds"
-      | some m => metaStr m
-    | ["c13", "acc", h] =>
-      match parseV2V3Header? ((parseData h).getD []) with
-      | none => "fault:bounds"
-      | some m => accStr m
-    | ["c13", "kdacc", h] =>
-      match parseV5KernelDescriptor? ((parseData h).getD []) with
-      | none => "fault:bounds"
-      | some m => accStr m
-    | ["c13", "sel", n, sy] => selOfView (parseView rest (sy == "syms=1")) (unName n)
-    | _ => "bad-op"
+    | ["c13", "drv"] => Drv.handleDrv rest
+    | ["c13", "embedded", "relu"] => Util.bytesHex reluForwardBytes
+    | ["c13", "dec", arch, n, sy] => decOfView (arch == "1") (parseView rest (sy == "syms=1")) (unName n)
+    | toks =>
+      match Elf.handleElf toks with
+      | some s => s
+      | none => handleCore line
 
 end C13
